@@ -19,3 +19,31 @@ package ast
 //@   ensures len(id.Lit) == 2*lsIdx(id) ==> len(result.Val) == 0
 //@   ensures len(id.Lit) > 2*lsIdx(id) && id.Lit[lsIdx(id)] != 10 ==> len(result.Val) == len(id.Lit) - 2*lsIdx(id)
 //@   ensures len(id.Lit) > 2*lsIdx(id) && id.Lit[lsIdx(id)] == 10 ==> len(result.Val) == len(id.Lit) - 2*lsIdx(id) - 1
+
+// ---------------------------------------------------------------------------
+// C12: integer numerals
+// ---------------------------------------------------------------------------
+// A decimal integer numeral denotes an integer only when it fits a signed 64-bit
+// integer; otherwise it denotes a float (manual 3.1).  The decimal branch of
+// NewNumber (extracted verbatim): when it falls through to the integer result,
+// the parsed value is below 2^63, and the digits were read in base 10.
+//@ fragment decimal_numeral of NewNumber at if#2/else
+//@   prop C12
+//@   arith int
+//@   norte
+//@   nocover
+//@   modifies everything()
+//@   exits any
+//@   ensures fragNext && fragOut_err == nil ==> fragOut_n < 9223372036854775808
+//@   assert_before_call ParseUint: arg1 == 10
+
+// The hexadecimal branch reads at most the last 16 digits in base 16 (a hex
+// integer numeral wraps around modulo 2^64).
+//@ fragment hex_numeral of NewNumber at if#2/then
+//@   prop C12
+//@   arith int
+//@   norte
+//@   nocover
+//@   modifies everything()
+//@   exits any
+//@   assert_before_call ParseUint: arg1 == 16 && arg2 == 64 && len(arg0) <= 16
